@@ -1332,6 +1332,53 @@ func (e *c34Env) analyse(fam, format string, s *PkgSpec, data []byte, res *c34Re
 		tarModel("data", d.DataTar, d.Data)
 		if ct, err := c34Gunzip(d.ControlRaw, true); err == nil {
 			tarModel("control", ct, d.Control)
+			// the control archive as deb.createControl assembles it (DebControl.lean; deb_scripts_in_control_archive):
+			// control text, md5sums and trigger lines as found (C02 / C03 judge them), the conffiles list from the plan,
+			// the configured maintainer scripts read from their files – member set, order, names, modes, times, bodies
+			if plan, perr := RealPlan(s, "deb"); perr == nil && len(ct) <= e.segCap/4 {
+				var confs []string
+				for _, pc := range plan {
+					if pc.Type == "config" || pc.Type == "config|noreplace" || pc.Type == "config|missingok" {
+						confs = append(confs, pc.Dst)
+					}
+				}
+				ctrlB, _ := d.ControlFile("control")
+				md5B, _ := d.ControlFile("md5sums")
+				trigB, _ := d.ControlFile("triggers")
+				mt := int64(-1)
+				for _, cm := range d.Control {
+					mt = cm.MTime
+					break
+				}
+				slots := [][2]string{{"config", info.Deb.Scripts.Config}, {"postinst", info.Scripts.PostInstall}, {"postrm", info.Scripts.PostRemove},
+					{"preinst", info.Scripts.PreInstall}, {"prerm", info.Scripts.PreRemove}, {"rules", info.Deb.Scripts.Rules}, {"templates", info.Deb.Scripts.Templates}}
+				var sc strings.Builder
+				n, readable := 0, true
+				for _, sl := range slots {
+					if sl[1] == "" {
+						continue
+					}
+					body, rerr := os.ReadFile(sl[1])
+					if rerr != nil {
+						readable = false
+						break
+					}
+					n++
+					fmt.Fprintf(&sc, " %s %s", wire.H(sl[0]), wire.H(string(body)))
+				}
+				if readable && mt >= 0 && (s.MTime == wire.ZeroTime || s.MTime == mt) {
+					res.Checks = append(res.Checks, "debcontroltar")
+					res.TarBy["deb:control:assembly-compared"]++
+					ask(fmt.Sprintf("debcontroltar %d %s %s %s %s %d%s", mt, wire.H(string(ctrlB)), wire.H(string(md5B)), wire.H(strings.Join(confs, "\n")+"\n"), wire.H(string(trigB)), n, sc.String()), func(ans string) {
+						got, _ := wire.UnH(ans)
+						if got != string(ct) {
+							res.f04("deb:control-archive-differs-from-model", "the control archive is not what the model of deb.createControl assembles from the control text, md5sums, the planned config files, the trigger lines and the configured script files (member set, order, names, modes, times or bodies differ): "+c34FirstDiff(got, string(ct)))
+						}
+					})
+				} else if s.MTime != wire.ZeroTime && s.MTime != mt && mt >= 0 {
+					res.f04("deb:control-archive-mtime", fmt.Sprintf("the members of the control archive carry mtime %d, the configured package mtime is %d", mt, s.MTime))
+				}
+			}
 		}
 		res.tarFacts("data", d.DataFacts, true)
 		res.tarFacts("control", d.ControlFacts, true)
